@@ -864,6 +864,20 @@ class Interp:
                     return False
                 left = right
                 continue
+            if opname in ("==", "!=", "is", "is not") and any(isinstance(x, tuple) and len(x) == 2 and x[0] == "pytype" for x in (l, r)):
+                # type(x) compared with a class: decided on the class name
+                def _tn(x):
+                    if isinstance(x, tuple) and x and x[0] == "pytype":
+                        return x[1]
+                    if isinstance(x, tuple) and len(x) == 3 and x[0] == "class":
+                        return x[2].name
+                    return None
+                a_, b_ = _tn(l), _tn(r)
+                if a_ is not None and b_ is not None:
+                    if (a_ == b_) != (opname in ("==", "is")):
+                        return False
+                    left = right
+                    continue
             if _is_conc(l) and _is_conc(r):
                 try:
                     ok = _CMPF[opname](l, r)
@@ -1155,6 +1169,15 @@ class Interp:
         raise AnalysisError(f"absint: cannot call {f!r} ({name}) at {mod.rel}:{e.lineno}")
 
     def builtin(self, name, args, kwargs, e, mod):
+        if name == "type" and len(args) == 1:
+            v = args[0]
+            if v is None or isinstance(v, (bool, int, float, str, bytes)):
+                return ("pytype", type(v).__name__)
+            if isinstance(v, AObj) and getattr(v, "cls", None):
+                return ("pytype", v.cls if isinstance(v.cls, str) else getattr(v.cls, "name", str(v.cls)))
+            return Unknown(f"type({_text(v)})")
+        if name == "bin":
+            return bin(args[0]) if isinstance(args[0], int) and not isinstance(args[0], bool) else Unknown(f"bin({_text(args[0])})")
         if name == "len":
             v = args[0]
             if isinstance(v, AList):
@@ -1281,6 +1304,8 @@ class Interp:
                 obj.log.append(("pop",) + tuple(args))
                 return obj.items.pop(*args)
             raise AnalysisError(f"absint: list method {attr} at {mod.rel}:{e.lineno}")
+        if isinstance(obj, int) and not isinstance(obj, bool) and attr == "bit_length" and not args:
+            return obj.bit_length()
         if isinstance(obj, str):
             if attr == "format":
                 if all(isinstance(a, (int, str, float)) for a in args):
@@ -1340,7 +1365,7 @@ Interp.getattr = _getattr
 _NOFOLD = object()
 _BUILTINS = {
     "len", "range", "int", "float", "abs", "max", "min", "round", "bool", "str", "bytes", "bytearray", "isinstance",
-    "list", "tuple", "enumerate", "zip", "print", "ord", "chr", "sum", "pow", "divmod", "any", "all", "dict", "set",
+    "list", "tuple", "enumerate", "zip", "print", "ord", "chr", "sum", "pow", "divmod", "any", "all", "dict", "set", "bin", "type",
 }
 _CMP = {ast.Lt: "<", ast.LtE: "<=", ast.Gt: ">", ast.GtE: ">=", ast.Eq: "==", ast.NotEq: "!=", ast.Is: "is",
         ast.IsNot: "is not", ast.In: "in", ast.NotIn: "not in"}
